@@ -52,7 +52,10 @@ SerViol(e) ==
   \cup (IF Has(g, "panic") THEN {}
         ELSE IF x.err THEN Check(e.prop, "invalid-value-rejected-not-encoded", g.err, c)
         ELSE Check(e.prop, "valid-value-encoded", ~g.err, c)
-             \cup (IF g.err THEN {} ELSE Check(e.prop, "encoded-exactly-as-specified", g.bytes = x.bytes, c)))
+             \cup (IF g.err THEN {} ELSE Check(e.prop, "encoded-exactly-as-specified", g.bytes = x.bytes, c))
+             \cup (IF ~Has(g, "errReused") THEN {}
+                   ELSE Check(e.prop, "encoding-does-not-depend-on-what-the-buffer-held-before",
+                              g.errReused = g.err /\ (~g.err => (Has(g, "bytesReused") /\ g.bytesReused = x.bytes)), c)))
 AesOne(e, r, which) ==
   LET x == e.exp  c == [layer |-> "AES128CBC", class |-> which] IN
   Check("C05", "serializer-no-panic", ~Has(r, "panic"), c)
